@@ -18,6 +18,36 @@ theorem foldl_range'_add {α : Type} (f : α → Nat → α) (a : α) (s n : Nat
   rw [List.range'_eq_map_range]
   simp only [List.foldl_map]
 
+/-! ## normal forms that make the generated proofs insensitive to harmless rewrites of the source -/
+
+/-- a left rotation is the right rotation by the complementary amount -/
+theorem rotl_eq_rotr {w : Nat} (x : BitVec w) (k : Nat) (h0 : 0 < k) (hk : k < w) : x.rotateLeft k = x.rotateRight (w - k) := by
+  rw [BitVec.rotateLeft_def, BitVec.rotateRight_def]
+  rw [Nat.mod_eq_of_lt hk, Nat.mod_eq_of_lt (by omega : w - k < w)]
+  rw [show w - (w - k) = k by omega, BitVec.or_comm]
+
+theorem wr_wr_same {α : Type} (a : Array α) (i : Nat) (x y : α) : wr (wr a i x) i y = wr a i y := by
+  unfold wr; simp
+
+theorem wr_wr_sort {α : Type} (a : Array α) (i j : Nat) (x y : α) (h : j < i) : wr (wr a i x) j y = wr (wr a j y) i x := by
+  unfold wr
+  exact Array.setIfInBounds_comm _ _ (by omega) |>.symm
+
+theorem rd_wr_same {α : Type} [Inhabited α] (a : Array α) (i : Nat) (x : α) (h : i < a.size) : rd (wr a i x) i = x := by
+  unfold rd wr; simp [h]
+
+theorem wr_of_le {α : Type} (a : Array α) (i : Nat) (x : α) (h : a.size ≤ i) : wr a i x = a := by
+  unfold wr; simp [Array.setIfInBounds, h]; omega
+
+theorem and_255 (x : Nat) : x &&& 255 = x % 256 := by
+  simpa using Nat.and_two_pow_sub_one_eq_mod x 8
+
+theorem and_15 (x : Nat) : x &&& 15 = x % 16 := by simpa using Nat.and_two_pow_sub_one_eq_mod x 4
+theorem and_511 (x : Nat) : x &&& 511 = x % 512 := by simpa using Nat.and_two_pow_sub_one_eq_mod x 9
+theorem and_1023 (x : Nat) : x &&& 1023 = x % 1024 := by simpa using Nat.and_two_pow_sub_one_eq_mod x 10
+
+theorem and_pow2_sub_one (x k : Nat) : x &&& (2 ^ k - 1) = x % 2 ^ k := Nat.and_two_pow_sub_one_eq_mod x k
+
 namespace Hc128
 
 /-- `step_p` as a function on the whole core (the Rust method signature): keystream word and updated core -/
@@ -114,12 +144,12 @@ def mixT (p : Params w) (a b c d e f g h : BitVec w) :
   let o := p.mix ⟨a, b, c, d, e, f, g, h⟩
   (o.a, o.b, o.c, o.d, o.e, o.f, o.g, o.h)
 
-/-- accumulator of the translated half loop of `generate`: `(self, results, a, b)` -/
-abbrev GenAcc (w : Nat) := Core w × Array (BitVec w) × BitVec w × BitVec w
+/-- accumulator of the translated half loop of `generate`: `(self, a, b, results)` (self first, then by name) -/
+abbrev GenAcc (w : Nat) := Core w × BitVec w × BitVec w × Array (BitVec w)
 
 /-- body of one translated half loop (`i` is already the multiple of four) -/
 def halfBodyT (p : Params w) (m m2 : Nat) (acc : GenAcc w) (i : Nat) : GenAcc w :=
-  let (st, results, a, b) := acc
+  let (st, a, b, results) := acc
   let r_1 := rngstepT p st.mem results (p.mix0 a) a b (i + 0) m m2
   let st : Core w := { st with mem := r_1.1 }; let results := r_1.2.1; let a := r_1.2.2.1; let b := r_1.2.2.2
   let r_2 := rngstepT p st.mem results (p.mix1 a) a b (i + 1) m m2
@@ -128,7 +158,7 @@ def halfBodyT (p : Params w) (m m2 : Nat) (acc : GenAcc w) (i : Nat) : GenAcc w 
   let st : Core w := { st with mem := r_3.1 }; let results := r_3.2.1; let a := r_3.2.2.1; let b := r_3.2.2.2
   let r_4 := rngstepT p st.mem results (p.mix3 a) a b (i + 3) m m2
   let st : Core w := { st with mem := r_4.1 }; let results := r_4.2.1; let a := r_4.2.2.1; let b := r_4.2.2.2
-  (st, results, a, b)
+  (st, a, b, results)
 
 /-- the model's loop body of `halfLoop` -/
 def halfStep (p : Params w) (m m2 : Nat) (st : GenSt w) (j : Nat) : GenSt w :=
@@ -144,13 +174,13 @@ theorem halfLoop_eq (p : Params w) (st : GenSt w) (m m2 : Nat) :
 
 /-- the translated half loop in terms of the model's -/
 theorem halfT_eq (p : Params w) (m m2 : Nat) (l : List Nat) (st : Core w) (results : Array (BitVec w)) (a b : BitVec w) :
-    List.foldl (halfBodyT p m m2) (st, results, a, b) (List.map (fun i => i * 4) l) =
+    List.foldl (halfBodyT p m m2) (st, a, b, results) (List.map (fun i => i * 4) l) =
       (let s := List.foldl (halfStep p m m2) ⟨st.mem, results, a, b⟩ l
-       ({ st with mem := s.mem }, s.results, s.a, s.b)) := by
+       ({ st with mem := s.mem }, s.a, s.b, s.results)) := by
   rw [List.foldl_map]
   rw [foldl_conj
-        (φ := fun (acc : GenAcc w) => ((⟨acc.1.mem, acc.2.1, acc.2.2.1, acc.2.2.2⟩ : GenSt w), (acc.1.a, acc.1.b, acc.1.c)))
-        (ψ := fun q => (({ mem := q.1.mem, a := q.2.1, b := q.2.2.1, c := q.2.2.2 } : Core w), q.1.results, q.1.a, q.1.b))
+        (φ := fun (acc : GenAcc w) => ((⟨acc.1.mem, acc.2.2.2, acc.2.1, acc.2.2.1⟩ : GenSt w), (acc.1.a, acc.1.b, acc.1.c)))
+        (ψ := fun q => (({ mem := q.1.mem, a := q.2.1, b := q.2.2.1, c := q.2.2.2 } : Core w), q.1.a, q.1.b, q.1.results))
         (g := fun q j => (halfStep p m m2 q.1 j, q.2))
         (hψ := fun _ => rfl) (h := fun _ _ => rfl)]
   rw [foldl_prod_const]
@@ -164,12 +194,12 @@ def generateT (p : Params w) (st : Core w) (results : Array (BitVec w)) : Array 
   let MIDPOINT := 256 / 2
   let m := 0
   let m2 := MIDPOINT
-  let (st, results, a, b) :=
-    List.foldl (halfBodyT p m m2) (st, results, a, b) (List.map (fun i => i * 4) (List.range (MIDPOINT / 4)))
+  let (st, a, b, results) :=
+    List.foldl (halfBodyT p m m2) (st, a, b, results) (List.map (fun i => i * 4) (List.range (MIDPOINT / 4)))
   let m := MIDPOINT
   let m2 := 0
-  let (st, results, a, b) :=
-    List.foldl (halfBodyT p m m2) (st, results, a, b) (List.map (fun i => i * 4) (List.range (MIDPOINT / 4)))
+  let (st, a, b, results) :=
+    List.foldl (halfBodyT p m m2) (st, a, b, results) (List.map (fun i => i * 4) (List.range (MIDPOINT / 4)))
   let st : Core w := { st with a := a }
   let st : Core w := { st with b := b }
   (results, st)
